@@ -129,14 +129,24 @@ def run_case(case):
     counters["fronts_checked_for_completeness"] = 1
     fr = [vec(r, finite, with_usage) for r in rows]
     tol = 2.0 ** -18
-    missed = None
+    missed, all_exact = None, True
     for e, l, usage, tree in space:
         v = [e, l] + ([usage.get(m, 0.0) for m in finite] if with_usage else [])
         covered = any(all(a <= b * (1 + tol) + 1e-9 for a, b in zip(f, v)) for f in fr)
         if not covered:
-            missed = (v, tree)
-            break
-    if missed:
+            exact = any(abs(usage.get(m, 0.0) - 1.0) <= 1e-6 for m in finite)
+            all_exact = all_exact and exact
+            if missed is None or (not exact):
+                missed = (v, tree)
+            if not exact:
+                break
+    if missed and all_exact:
+        # EVERY uncovered valid mapping fills a memory exactly (usage 1.0): the float32 `<= 1` comparison of the
+        # tile-shape exploration / the join drops exact fits (C08 finding exact_fit_dropped_by_float32_rounding)
+        counters["uncovered_exact_fit_mappings"] = counters.get("uncovered_exact_fit_mappings", 0) + 1
+        viol.append({"sig": "exact_fit_mapping_missing_from_front",
+                     "witness": {"metrics": metrics, "uncovered_vector": missed[0], "tree": missed[1], "front": fr[:20], "spec": gs.summary(d)}})
+    elif missed:
         viol.append({"sig": "valid_mapping_not_dominated_by_front" + (":with_usage" if with_usage else ""),
                      "witness": {"metrics": metrics, "uncovered_vector": missed[0], "tree": missed[1], "front": fr[:20], "spec": gs.summary(d)}})
     better = [f for f in fr if not any(all(b <= a * (1 + tol) + 1e-9 for a, b in zip(f, [e, l] + ([u.get(m, 0.0) for m in finite] if with_usage else [])))
